@@ -50,7 +50,7 @@ def tie(ctx, broken):
     R.count_runs(ctx, out, lambda tr, P: sum(1 for e in tr["events"] if e[0] == "update_incumbent") >= 2)
     R.apply_monitor(ctx, out, R.mon_c04)
     L.tie_loop(ctx, broken, out, "c04")                 # gen/Src_loop.v on every recorded iteration (translator validation)
-    R.apply_monitor(ctx, out, L.mon_loop)
+    L.apply_mon_loop(ctx, out, broken)
     # result fields vs the model's final incumbent (the model's final cur is compared in the tie; here result.* vs last probe)
     badres = [tr["spec"] for tr, P in out if "result" in tr and P is not None and P["expect"]
               and not (tr["result"]["fval"] == P["expect"][-1]["f"] and tr["final"]["inv_u"] == tr["result"]["x"])]
@@ -69,4 +69,4 @@ def search(ctx, broken):
 
 
 def replay(ctx, rp):
-    return R.generic_replay(ctx, rp, [R.mon_c04, L.mon_loop])
+    return R.generic_replay(ctx, rp, [R.mon_c04, L.mon_loop_property("C04")])
